@@ -67,6 +67,7 @@ type FakePool struct {
 	JobN     int
 	DialFail bool
 	CloseOn  string // the pool hangs up when it receives this method (a failure during the handshake)
+	Delay    time.Duration // the pool takes this long to answer a subscribe (a slow handshake)
 	Rec      *Rec
 	Mu       sync.Mutex
 	Conns    []*FakePoolConn
@@ -165,6 +166,9 @@ func (pc *FakePoolConn) Run() {
 			p.Rec.Add(pc.Stream(), "subscribe id=%s", id)
 			if p.Manual {
 				continue
+			}
+			if p.Delay > 0 {
+				time.Sleep(p.Delay)
 			}
 			pc.Send(`{"id":%s,"result":[[["mining.set_difficulty","1"],["mining.notify","1"]],"%s",%d],"error":null}`, id, p.En1, p.En2size)
 		case "mining.authorize":
